@@ -9,9 +9,11 @@
 EXTENDS Naturals, Sequences, FiniteSets, TLC, Json
 CONSTANTS Emit,
           KeepTimeAppliesToRoot,   \* deviation: with -k the root takes the time stamp of the scanned directory
-          ForcedOwnerSkipsRoot     \* deviation (pinned tree before fix 742dec9): --set-uid / --all-root do not reach the root inode
+          ForcedOwnerSkipsRoot,    \* deviation (pinned tree before fix 742dec9): --set-uid / --all-root do not reach the root inode
+          MapFileGetsHostPath      \* deviation: with -x the --xattr-file is looked up by the host path of the entry, so no line of it ever matches
 
-Opts == [k : BOOLEAN, own : {"none", "allroot", "u3"}, g4 : BOOLEAN, H : BOOLEAN, x : BOOLEAN, o : BOOLEAN, dm : {"none", "99"}, du : {"none", "55"}]
+Opts == [k : BOOLEAN, own : {"none", "allroot", "u3"}, g4 : BOOLEAN, H : BOOLEAN, x : BOOLEAN, A : BOOLEAN, o : BOOLEAN, dm : {"none", "99"}, du : {"none", "55"}]
+(* A: an --xattr-file that gives /a the pair user.map and /d the pair user.dirmap (paths of the IMAGE); -x reads user.t of a from disk *)
 Src == [a |-> [kind |-> "file", uid |-> 7, gid |-> 8, t |-> 5000, xa |-> TRUE],
         d |-> [kind |-> "dir", uid |-> 11, gid |-> 12, t |-> 5000, xa |-> FALSE],
         b |-> [kind |-> "file", uid |-> 7, gid |-> 8, t |-> 5000, xa |-> TRUE],        \* d/b, second name of a's inode
@@ -20,7 +22,10 @@ Uid(o, u) == CASE o.own = "allroot" -> 0 [] o.own = "u3" -> 3 [] OTHER -> u
 Gid(o, g) == IF o.g4 THEN 4 ELSE IF o.own = "allroot" THEN 0 ELSE g        \* the later option wins; the driver puts --set-gid behind --all-root
 DefT(o) == IF o.dm = "99" THEN 99 ELSE 0
 Node(o, n) == [kind |-> Src[n].kind, uid |-> Uid(o, Src[n].uid), gid |-> Gid(o, Src[n].gid),
-               mtime |-> (IF o.k THEN Src[n].t ELSE DefT(o)), xattr |-> (o.x /\ Src[n].xa)]
+               mtime |-> (IF o.k THEN Src[n].t ELSE DefT(o)),
+               xattr |-> LET own(m) == (IF o.x /\ Src[m].xa THEN {"t"} ELSE {}) \cup
+                                      (IF o.A /\ ~MapFileGetsHostPath THEN (IF m = "a" THEN {"map"} ELSE IF m = "d" THEN {"dirmap"} ELSE {}) ELSE {})
+                         IN IF n = "b" /\ ~o.H THEN own("a") ELSE own(n)]              \* d/b is a's inode unless -H
 Meaning(o) ==
   [root |-> [uid |-> (IF ForcedOwnerSkipsRoot THEN (IF o.du = "55" THEN 55 ELSE 0) ELSE Uid(o, IF o.du = "55" THEN 55 ELSE 0)),
              gid |-> (IF ForcedOwnerSkipsRoot THEN 0 ELSE Gid(o, 0)),
@@ -35,5 +40,6 @@ Spec == Init /\ [][Next]_o
 (* a forced owner reaches every inode; the time stamps of the image are either all the default or (entries, with -k) the sources' *)
 ForcedOwnerEverywhere == (o.own = "u3") => \A n \in {"root", "a", "d", "b", "l"} : Meaning(o)[n].uid = 3
 RootFromDefaults == Meaning(o).root.mtime = DefT(o)
+MapFileApplies == o.A => ("map" \in Meaning(o).a.xattr /\ "dirmap" \in Meaning(o).d.xattr)
 EmitOK == Emit => PrintT(<<"RESULT", ToJson([o |-> o, m |-> Meaning(o)])>>)
 =============================================================================
